@@ -50,30 +50,16 @@ theorem abs_withPads : ∀ (fis : List FileI) (off : Nat),
 
 /-! ### the files fit -/
 
-def lastSize : List FileI → Nat
-  | [] => 0
-  | [f] => sizeFile f
-  | _ :: fs => lastSize fs
-
-theorem fits_of : ∀ (fis : List FileI) (off len : Nat), layEnd off fis ≤ len →
-    (layEnd off fis = len → lastSize fis ≠ 24) → Fits off len fis
-  | [], _, _, _, _ => trivial
-  | [f], off, len, hle, hlast => by
+/-- the files fit as soon as the last one ends inside the volume (a file is at least its 24-byte
+    header, so every header lies inside the walk range; round 3: no condition on a header-only last
+    file any more, the reader takes it since fix cce350a) -/
+theorem fits_of : ∀ (fis : List FileI) (off len : Nat), layEnd off fis ≤ len → Fits off len fis
+  | [], _, _, _ => trivial
+  | f :: fs, off, len, hle => by
     have hge := sizeFile_ge f
-    simp only [layEnd] at hle hlast
-    simp only [lastSize] at hlast
-    refine ⟨?_, hle, trivial⟩
-    by_cases he : fileStart off (storedAttrs f) + sizeFile f = len
-    · have := hlast he; omega
-    · omega
-  | f :: g :: fs, off, len, hle, hlast => by
-    have hge := sizeFile_ge f
-    have hgg := sizeFile_ge g
-    simp only [layEnd] at hle hlast
-    have h1 := le_layEnd fs (fileStart (fileStart off (storedAttrs f) + sizeFile f) (storedAttrs g) + sizeFile g)
-    have h2 := le_fileStart (fileStart off (storedAttrs f) + sizeFile f) (storedAttrs g)
-    refine ⟨by omega, by omega, ?_⟩
-    exact fits_of (g :: fs) _ len (by simpa [layEnd] using hle) (by simpa [layEnd, lastSize] using hlast)
+    simp only [layEnd] at hle
+    have h1 := le_layEnd fs (fileStart off (storedAttrs f) + sizeFile f)
+    exact ⟨by omega, by omega, fits_of fs _ len hle⟩
 
 /-! ### small files never ask for FFSv3 -/
 
@@ -181,9 +167,8 @@ theorem sizeFv_vol (k : Skel) (files : List FileI) (h : endFiles k.pre files ≤
 /-- the volume built from a well-formed header and a well-formed file area is well formed -/
 theorem wfFv_vol (k : Skel) (hk : k.Ok) (files : List FileI) (hlt : k.len < 2 ^ 62) (hb : files = [] ∨ k.blocks ≠ [])
     (hfiles : wfFiles k.pre k.len files = true) (hend : endFiles k.pre files ≤ k.len)
-    (htail : endFiles k.pre files + 24 < k.len → alignUp (endFiles k.pre files) 8 + 32 ≤ k.len)
     (hbig : anyBigFiles files = false) : wfFv (k.vol files) = true := by
-  unfold Skel.pre at hfiles htail hend
+  unfold Skel.pre at hfiles hend
   have e : endFiles (preLen k.blocks k.ext) files + (k.len - endFiles (preLen k.blocks k.ext) files) = k.len := by
     omega
   simp only [Skel.vol, Skel.pre, wfFv, e, Bool.and_eq_true, decide_eq_true_eq, beq_iff_eq, bne_iff_ne, Bool.or_eq_true,
